@@ -419,8 +419,10 @@ func (cr *caseRun) snapshot() *outcome {
 func execCase(c *caseSpec, cr *caseRun) *outcome {
 	out := &outcome{}
 	cfg := httpproxy.ServerConfig{EnableBasicAuth: c.Auth}
-	if c.Auth {
+	if c.Auth && !c.NoUsers {
 		cfg.Users = []httpproxy.ServerUserCredentials{{Username: "someone-else", Password: "pw"}, {Username: c.User, Password: c.Pass}, {Username: "third", Password: ""}}
+	} else if c.Auth && len(c.User)%2 == 0 {
+		cfg.Users = []httpproxy.ServerUserCredentials{}
 	}
 	srv, err := cfg.NewProxyServer()
 	if err != nil {
@@ -941,6 +943,9 @@ func judge(e *core.Env, ci int, c *caseSpec, out *outcome, stalled bool) {
 	auth := "off"
 	if c.Auth {
 		auth = fmt.Sprintf("on/%d-failed", min(len(c.Attempts), 3))
+		if c.NoUsers {
+			auth += "/no-users"
+		}
 	}
 	sc := c.Scenario
 	if c.ClientCut != nil {
